@@ -6,7 +6,9 @@
   (cf = `CfClosed`: every jump target is inside the program; reported, not part of the verdict)
   `CASE`, `F`, `R` lines are echoed.  When the harness sends the source text (`F S <text>`, or `FS <text>`
 for a file set) its `cpdef`/`ioatt` lines are read (`scanWiring`) and the machine's external port
-counts and bonds are compared with them (`Basm.wiringAgrees`); a difference is one more reason.  When a machine uses opcodes outside the shared layout table
+counts and bonds are compared with them (`Basm.wiringAgrees`); a difference is one more reason.  `AL n0,n1,…`
+(instruction counts of the assembly a front-end saved next to the machine): processor k must hold n_k ROM words.
+  When a machine uses opcodes outside the shared layout table
   its verdict is printed but the reason list says so (`opcode-unmodelled-or-wrong-mode`) and the
   opcodes are listed: the driver reports such instances as *unmodelled*, not as ill-formed.
 -/
@@ -19,6 +21,7 @@ open BMV BMV.Lines BMV.BasmText
 structure St where
   bm : Option BM := none
   wire : Option Basm.Source := none   -- the `cpdef`/`ioatt` lines of the source, when the harness sent its text
+  asm : List Nat := []                -- instruction counts of the assembly the front-end saved per processor (`AL`)
 
 def unmodelled (bm : BM) : List String :=
   (bm.cps.flatMap fun cp => cp.arch.ops.filter fun op => (layout op).isNone).eraseDups
@@ -33,9 +36,16 @@ def wiringReason (wire : Option Basm.Source) (bm : BM) : List String :=
     [s!"wiring-differs-from-ioatt-lines[inputs:{bm.topo.inputs}/{Basm.extCount 0 ps};outputs:{bm.topo.outputs}/{Basm.extCount 1 ps};bonds:{sb (Topology.bonds bm.topo)}/{sb want}]"]
   | none => []
 
-def verdict (wire : Option Basm.Source) (bm0 : BM) : String :=
+/-- a front-end that saved both its assembly and the machine: processor k holds one ROM word per instruction -/
+def asmReason (asm : List Nat) (bm : BM) : List String :=
+  if asm.isEmpty then [] else
+  (if asm.length == bm.cps.length then [] else [s!"processors-vs-emitted-assemblies[{bm.cps.length}/{asm.length}]"]) ++
+  (bm.cps.zip asm).zipIdx.filterMap fun ((cp, n), k) =>
+    if cp.prog.length == n then none else some s!"cp{k}:program-length-differs-from-emitted-assembly[{cp.prog.length}/{n}]"
+
+def verdict (wire : Option Basm.Source) (asm : List Nat) (bm0 : BM) : String :=
   let bm := finishBM bm0
-  let wr := wiringReason wire bm
+  let wr := wiringReason wire bm ++ asmReason asm bm
   let ok := WfBM bm && wr.isEmpty
   let rs := WfBM.explain bm ++ wr
   let um := unmodelled bm
@@ -47,12 +57,13 @@ def step (st : St) (line : String) : St × List String :=
   | "CASE" :: _ => ({}, [line])
   | "F" :: "S" :: _ => ({ st with wire := scanWiring (((line.drop 4).toString).splitOn "\\n") }, [line])
   | "F" :: _ => (st, [line])
+  | ["AL", ns] => ({ st with asm := (commaList ns).map nat! }, [])
   | "FS" :: _ => ({ st with wire := scanWiring (((line.drop 3).toString).splitOn "\\n") }, [])
   | "R" :: _ => (st, [line])
   | "M" :: _ => ({ st with bm := some (bmLine default line) }, [])
   | "E" :: _ =>
     match st.bm with
-    | some bm => ({}, [verdict st.wire bm])
+    | some bm => ({}, [verdict st.wire st.asm bm])
     | none => (st, ["WF ? no-machine"])
   | _ =>
     match st.bm with
